@@ -311,10 +311,11 @@ def run_home_switch(params, st, keep_log=False):
     names = [n for _, n in doc_names() if not is_bundled(n) and ds_for(n) is not None]
     first = st.pick(names, "first")
     second = st.pick(names, "second") if st.coin(2, 3, "other-dataset") else first
-    to_unset = st.coin(1, 3, "unset-instead")
-    scn = _scn([], [_raw(first, False)], home="env")
+    start_default = st.coin(1, 3, "start-with-default-home")        # first load with the variable unset
+    to_unset = (not start_default) and st.coin(1, 3, "unset-instead")
+    scn = _scn([], [_raw(first, False)], home="default" if start_default else "env")
     scn["one_process"] = True
-    scn["case"] = {"home-switch": [first, second], "then": "unset" if to_unset else "B"}
+    scn["case"] = {"home-switch": [first, second], "from": "unset" if start_default else "A", "then": "unset" if to_unset else "B"}
 
     def extra(run, actors, phase):
         if phase != "pre":
@@ -335,7 +336,8 @@ def run_home_switch(params, st, keep_log=False):
         b = run.spawn_loader(_raw(second, False), role="again")
         b.attrs["proc"] = a.attrs.get("proc", ("process", 0))
         run.sim.run(on_step=run.on_step, step_cap=run.sim.step + 400)
-        what = f"load_dataset({second!r}) after TRAFFIC_WEAVER_DATA was " + ("unset" if to_unset else "changed to another directory") + \
+        what = f"load_dataset({second!r}) after TRAFFIC_WEAVER_DATA was " + \
+            ("unset" if to_unset else ("set" if start_default else "changed to another directory")) + \
             f" in the same process (first load: {first!r})"
         if b.exc is not None:
             run.fail("documented-name-load-failed", key, f"{what} raised {type(b.exc).__name__}: {b.exc}")
